@@ -20,27 +20,218 @@ Lemma ctype_consts :
   it_min culonglong_T = 0 /\ it_max culonglong_T = 18446744073709551615.
 Proof. vm_compute. repeat split; reflexivity. Qed.
 
+Lemma ct_min_max_signed w : ct_min (w, true) = - ct_max (w, true) - 1.
+Proof. unfold ct_min, ct_max. cbn [fst snd]. lia. Qed.
+
+(* the type given to an unsuffixed-U constant whose magnitude fits long long: always a signed one *)
+Lemma const_type_signed hex l mag :
+  l = 0 \/ l = 1 \/ l = 2 -> 0 <= mag -> (l = 0 -> mag <= 2147483647) -> mag <= 9223372036854775807 ->
+  exists w, c_const_type hex false l mag = Some (w, true) /\ mag <= ct_max (w, true).
+Proof.
+  intros Hl H0 Hi Hm.
+  destruct ctype_consts as (M1 & M2 & M3 & M4 & M5 & M6 & _).
+  unfold c_const_type.
+  destruct Hl as [-> | [-> | ->]]; destruct hex; cbn [c_candidates find]; rewrite ?M1, ?M2, ?M3, ?M4, ?M5, ?M6.
+  - specialize (Hi eq_refl). destruct (Z.leb_spec mag 2147483647); [|lia]. exists C_INT_BITS. split; [reflexivity|]. fold c_int. lia.
+  - specialize (Hi eq_refl). destruct (Z.leb_spec mag 2147483647); [|lia]. exists C_INT_BITS. split; [reflexivity|]. fold c_int. lia.
+  - destruct (Z.leb_spec mag 9223372036854775807); [|lia]. exists C_LONG_BITS. split; [reflexivity|]. fold c_long. lia.
+  - destruct (Z.leb_spec mag 9223372036854775807); [|lia]. exists C_LONG_BITS. split; [reflexivity|]. fold c_long. lia.
+  - destruct (Z.leb_spec mag 9223372036854775807); [|lia]. exists C_LLONG_BITS. split; [reflexivity|]. fold c_llong. lia.
+  - destruct (Z.leb_spec mag 9223372036854775807); [|lia]. exists C_LLONG_BITS. split; [reflexivity|]. fold c_llong. lia.
+Qed.
+
+Lemma const_type_unsigned hex l mag :
+  l = 0 \/ l = 1 \/ l = 2 -> 0 <= mag -> (l = 0 -> mag <= 4294967295) -> mag <= 18446744073709551615 ->
+  exists w, c_const_type hex true l mag = Some (w, false) /\ mag <= ct_max (w, false).
+Proof.
+  intros Hl H0 Hi Hm.
+  destruct ctype_consts as (M1 & M2 & M3 & M4 & M5 & M6 & _).
+  unfold c_const_type.
+  destruct Hl as [-> | [-> | ->]]; cbn [c_candidates find]; rewrite ?M1, ?M2, ?M3, ?M4, ?M5, ?M6.
+  - specialize (Hi eq_refl). destruct (Z.leb_spec mag 4294967295); [|lia]. exists C_INT_BITS. split; [reflexivity|]. fold c_uint. lia.
+  - destruct (Z.leb_spec mag 18446744073709551615); [|lia]. exists C_LONG_BITS. split; [reflexivity|]. fold c_ulong. lia.
+  - destruct (Z.leb_spec mag 18446744073709551615); [|lia]. exists C_LLONG_BITS. split; [reflexivity|]. fold c_ullong. lia.
+Qed.
+
+(* the suffix chosen by the emitter *)
+Definition suffix_l (T : itype) (num : Z) : Z :=
+  if negb (it_inrange cint_T num) || (num =? it_min cint_T) then
+    (if it_long T =? 1 then 1
+     else if (it_long T =? 2) || (it_signed T && it_inrange clonglong_T num)
+             || (negb (it_signed T) && it_inrange culonglong_T num) then 2
+     else 0)
+  else 0.
+
+Lemma suffix_l_signed T num : it_signed T = true -> -9223372036854775808 <= num <= 9223372036854775807 ->
+  (suffix_l T num = 0 \/ suffix_l T num = 1 \/ suffix_l T num = 2) /\
+  (suffix_l T num = 0 -> -2147483648 < num <= 2147483647).
+Proof.
+  intros Es Hr. destruct ctype_consts as (_ & _ & _ & _ & _ & _ & _ & _ & _ & I1 & I2 & I3 & I4 & I5 & I6).
+  unfold suffix_l, it_inrange. rewrite Es, I1, I2, I3, I4. cbn [andb negb orb].
+  destruct (Z.leb_spec (-2147483648) num); destruct (Z.leb_spec num 2147483647); cbn [andb negb orb];
+    destruct (Z.eqb_spec num (-2147483648)); cbn [orb];
+    try (split; [auto|intros; lia]);
+    destruct (it_long T =? 1); try (split; [auto|intros; lia]);
+    destruct (Z.leb_spec (-9223372036854775808) num); destruct (Z.leb_spec num 9223372036854775807); try lia;
+    rewrite ?orb_true_r; cbn [andb orb]; split; auto; intros; lia.
+Qed.
+
+Lemma suffix_l_unsigned T num : it_signed T = false -> 0 <= num <= 18446744073709551615 ->
+  (suffix_l T num = 0 \/ suffix_l T num = 1 \/ suffix_l T num = 2) /\
+  (suffix_l T num = 0 -> num <= 2147483647).
+Proof.
+  intros Es Hr. destruct ctype_consts as (_ & _ & _ & _ & _ & _ & _ & _ & _ & I1 & I2 & I3 & I4 & I5 & I6).
+  unfold suffix_l, it_inrange. rewrite Es, I1, I2, I5, I6. cbn [andb negb orb].
+  destruct (Z.leb_spec (-2147483648) num); [|lia]. destruct (Z.leb_spec num 2147483647); cbn [andb negb orb];
+    destruct (Z.eqb_spec num (-2147483648)); try lia; cbn [orb];
+    try (split; [auto|intros; lia]);
+    destruct (it_long T =? 1); try (split; [auto|intros; lia]);
+    destruct (Z.leb_spec 0 num); destruct (Z.leb_spec num 18446744073709551615); try lia;
+    rewrite ?orb_true_r; cbn [andb orb]; split; auto; intros; lia.
+Qed.
+
 (* C semantics of the emitted token, for a value that already lies where the emitter expects it *)
 Lemma emit_from_eval T num0 base :
-  it_long T = 0 \/ it_long T = 1 \/ it_long T = 2 ->
   (it_signed T = true -> -9223372036854775808 <= num0 <= 9223372036854775807 /\
                          -9223372036854775808 <= it_min T <= -128 /\ (num0 = -9223372036854775808 -> num0 = it_min T)) ->
   (it_signed T = false -> 0 <= num0 <= 18446744073709551615) ->
   exists w, c_eval (nl_emit_from T num0 base) = Some ((w, it_signed T), num0).
 Proof.
-  intros Hl Hs Hu.
-  destruct ctype_consts as (M1 & M2 & M3 & M4 & M5 & M6 & N1 & N2 & N3 & I1 & I2 & I3 & I4 & I5 & I6).
-  unfold nl_emit_from, c_eval, c_const_type, it_inrange. cbn [ct_paren ct_neg ct_hex ct_mag ct_u ct_l].
-  rewrite I1, I2, I3, I4, I5, I6.
-  set (m := it_min T) in *. set (M := it_max T) in *. clearbody m M.
-  destruct (it_signed T) eqn:Es.
-  - (* signed target *)
-    specialize (Hs eq_refl). destruct Hs as (Hr & Hm & Hmin). clear Hu.
-    cbn [andb orb negb].
+  intros Hs Hu.
+  unfold nl_emit_from. fold (suffix_l T (if it_signed T && (num0 =? it_min T) then num0 + 1 else num0)).
+  unfold c_eval. cbn [ct_paren ct_neg ct_hex ct_mag ct_u ct_l].
+  set (hexflag := negb _).
+  destruct (it_signed T) eqn:Es; cbn [andb negb].
+  - specialize (Hs eq_refl). destruct Hs as (Hr & Hm & Hmin). clear Hu.
+    set (m := it_min T) in *.
     destruct (Z.eqb_spec num0 m) as [Em|Em].
-    + (* the minimum: "(min+1 - 1)" *)
-      assert (Hneg : (num0 + 1 <? 0) = true) by (apply Z.ltb_lt; lia). Show.
-      admit.
-    + admit.
-  - admit.
-Abort.
+    + (* the minimum of the type: "(min+1 - 1)" *)
+      set (num := num0 + 1). assert (Hnum : -9223372036854775807 <= num <= -127) by (subst num; lia).
+      destruct (suffix_l_signed T num Es ltac:(lia)) as [Hl Hl0].
+      destruct (const_type_signed hexflag (suffix_l T num) (Z.abs num) Hl ltac:(lia) ltac:(lia) ltac:(lia)) as (w & -> & Hw).
+      exists w. cbn [snd fst]. destruct (Z.ltb_spec num 0); [|lia].
+      rewrite ct_min_max_signed.
+      destruct (Z.leb_spec (- ct_max (w, true) - 1) (- Z.abs num - 1)); [|lia].
+      f_equal. f_equal. subst num. lia.
+    + set (num := num0). assert (Hnum : -9223372036854775807 <= num <= 9223372036854775807).
+      { subst num. split; [|lia]. destruct (Z.eq_dec num0 (-9223372036854775808)) as [E|E]; [|lia].
+        specialize (Hmin E). contradiction. }
+      destruct (suffix_l_signed T num Es ltac:(lia)) as [Hl Hl0].
+      destruct (const_type_signed hexflag (suffix_l T num) (Z.abs num) Hl ltac:(lia) ltac:(lia) ltac:(lia)) as (w & -> & Hw).
+      exists w. cbn [snd fst]. f_equal. f_equal. subst num. destruct (Z.ltb_spec num0 0); lia.
+  - specialize (Hu eq_refl). clear Hs.
+    destruct (suffix_l_unsigned T num0 Es Hu) as [Hl Hl0].
+    destruct (const_type_unsigned hexflag (suffix_l T num0) (Z.abs num0) Hl ltac:(lia) ltac:(lia) ltac:(lia)) as (w & -> & Hw).
+    exists w. cbn [snd fst]. destruct (Z.ltb_spec num0 0); [lia|]. f_equal. f_equal. lia.
+Qed.
+
+(* ---- what reaches the emitter: the value forced into the type ---- *)
+Lemma wrap_T_eqm T x y : 0 < it_bits T -> x mod 2 ^ it_bits T = y mod 2 ^ it_bits T -> wrap_T T x = wrap_T T y.
+Proof.
+  intros Hb H. unfold wrap_T. destruct (it_signed T); [|exact H].
+  f_equal. destruct (pow2_split _ Hb) as [Hp Hh].
+  rewrite <- (Z.add_mod_idemp_l x), <- (Z.add_mod_idemp_l y) by lia. rewrite H. reflexivity.
+Qed.
+
+Definition width_ok (T : itype) : bool :=
+  ((it_bits T =? 8) || (it_bits T =? 16) || (it_bits T =? 32) || (it_bits T =? 64) || (it_bits T =? 128)).
+
+Lemma all_types_ok : forallb width_ok all_int_types = true.
+Proof. vm_compute. reflexivity. Qed.
+
+Lemma type_width T : In T all_int_types -> it_bits T <= 64 ->
+  it_bits T = 8 \/ it_bits T = 16 \/ it_bits T = 32 \/ it_bits T = 64.
+Proof.
+  intros Hin Hb. pose proof all_types_ok as H. rewrite forallb_forall in H. specialize (H T Hin).
+  unfold width_ok in H. rewrite !orb_true_iff, !Z.eqb_eq in H. lia.
+Qed.
+
+Lemma prewrap_facts T v : 0 < it_bits T -> - 2 ^ (BN_BITS - 1) <= v < 2 ^ (BN_BITS - 1) -> it_bits T <= 128 ->
+  let n := nl_prewrap T v in
+  wrap_T T n = wrap_T T v /\
+  (it_signed T = false -> 0 <= n <= it_max T) /\
+  (it_signed T = true -> it_inrange T n = true \/ (- 2 ^ it_bits T < n < 2 ^ it_bits T)).
+Proof.
+  intros Hb Hv H128. cbn zeta.
+  assert (HP : 0 < 2 ^ it_bits T) by (apply Z.pow_pos_nonneg; lia).
+  assert (HPle : 2 ^ it_bits T <= 2 ^ 128) by (apply Z.pow_le_mono_r; lia).
+  change (2 ^ 128) with 340282366920938463463374607431768211456 in HPle.
+  unfold nl_prewrap, nl_wrap_value.
+  destruct (it_inrange T v) eqn:Ein.
+  - (* already in range: untouched (for an unsigned type a negative value is never in range) *)
+    assert (Hnn : it_signed T = false -> 0 <= v).
+    { intros Es. unfold it_inrange, it_min in Ein. rewrite Es in Ein. lia. }
+    assert (E : (if negb (it_signed T) && (v <? 0) || negb true then v else v) = v) by (destruct (_ || _); reflexivity).
+    rewrite E. split; [reflexivity|]. split.
+    + intros Es. unfold it_inrange, it_min in Ein. rewrite Es in Ein. lia.
+    + intros _. left. exact Ein.
+  - rewrite orb_true_r.
+    destruct (it_signed T) eqn:Es; cbn [andb].
+    + destruct (Z.ltb_spec (it_max T) v) as [Hgt|Hle].
+      * (* above the maximum: -bwrap(-v) *)
+        assert (E1 : bn_wrap (- v) = - v).
+        { apply bn_wrap_id. unfold it_max in Hgt. rewrite Es in Hgt.
+          assert (0 < 2 ^ (it_bits T - 1)) by (apply Z.pow_pos_nonneg; lia). bn_consts. lia. }
+        rewrite E1. unfold bwrap.
+        pose proof (Z.mod_pos_bound (- v) (2 ^ it_bits T) HP) as Hm.
+        assert (E2 : bn_wrap (- ((- v) mod 2 ^ it_bits T)) = - ((- v) mod 2 ^ it_bits T)).
+        { apply bn_wrap_id. bn_consts. lia. }
+        rewrite E2. split; [|split; [discriminate|intros _; right; lia]].
+        apply wrap_T_eqm; [exact Hb|].
+        replace (- ((- v) mod 2 ^ it_bits T)) with (0 - (- v) mod 2 ^ it_bits T) by lia.
+        rewrite Zminus_mod_idemp_r. f_equal. lia.
+      * (* below the minimum: bwrap(v) *)
+        unfold bwrap. pose proof (Z.mod_pos_bound v (2 ^ it_bits T) HP) as Hm.
+        split; [|split; [discriminate|intros _; right; lia]].
+        apply wrap_T_eqm; [exact Hb|]. apply Z.mod_mod. lia.
+    + unfold bwrap. pose proof (Z.mod_pos_bound v (2 ^ it_bits T) HP) as Hm.
+      split; [|split; [|discriminate]].
+      * apply wrap_T_eqm; [exact Hb|]. apply Z.mod_mod. lia.
+      * intros _. unfold it_max. rewrite Es. lia.
+Qed.
+
+(* ---- the property: the emitted constant, typed by C, converted to the target type ---- *)
+Definition literal_roundtrip : Prop :=
+  forall T v base, In T all_int_types -> it_bits T <= 64 ->
+    - 2 ^ (BN_BITS - 1) <= v < 2 ^ (BN_BITS - 1) ->
+    exists w val, c_eval (nl_emit T v base) = Some ((w, it_signed T), val) /\ c_convert T val = wrap_T T v.
+
+(* false today: int64, 2^64 + 5 (only reachable through folded constants, see C02) *)
+Lemma literal_roundtrip_refuted : ~ literal_roundtrip.
+Proof.
+  intros H. destruct (H (mk_itype 64 true 0) 18446744073709551621 16) as (w & val & E & _).
+  - vm_compute. tauto.
+  - cbn. lia.
+  - bn_consts. lia.
+  - vm_compute in E. discriminate.
+Qed.
+
+(* true whenever the code's wrap_value lands inside the type, and for every type narrower than 64 bits *)
+Lemma literal_roundtrip_partial T v base : In T all_int_types -> it_bits T <= 64 ->
+  - 2 ^ (BN_BITS - 1) <= v < 2 ^ (BN_BITS - 1) ->
+  it_bits T < 64 \/ it_signed T = false \/ it_inrange T (nl_prewrap T v) = true ->
+  exists w val, c_eval (nl_emit T v base) = Some ((w, it_signed T), val) /\ c_convert T val = wrap_T T v.
+Proof.
+  intros Hin Hb Hv Hgood.
+  pose proof (type_width T Hin Hb) as Hw.
+  assert (Hb0 : 0 < it_bits T) by lia.
+  destruct (prewrap_facts T v Hb0 Hv ltac:(lia)) as (Hcong & Hu & Hs). cbn zeta in *.
+  set (n := nl_prewrap T v) in *.
+  assert (Hmin : it_signed T = true -> -9223372036854775808 <= it_min T <= -128).
+  { intros Es. unfold it_min. rewrite Es. destruct Hw as [-> | [-> | [-> | ->]]]; cbn; lia. }
+  assert (Hmax : it_max T <= 18446744073709551615).
+  { unfold it_max. destruct (it_signed T); destruct Hw as [-> | [-> | [-> | ->]]]; cbn; lia. }
+  destruct (emit_from_eval T n base) as [w E].
+  - intros Es. specialize (Hs Es). specialize (Hmin Es).
+    assert (Hrange : -9223372036854775808 <= n <= 9223372036854775807 /\ (n = -9223372036854775808 -> n = it_min T)).
+    { destruct Hs as [Hin'|Hout].
+      - unfold it_inrange, it_min, it_max in *. rewrite Es in *.
+        destruct Hw as [Ew|[Ew|[Ew|Ew]]]; rewrite Ew in *; cbn in *; lia.
+      - destruct Hgood as [Hlt|[Hf|Hin']]; [|congruence|].
+        + destruct Hw as [Ew|[Ew|[Ew|Ew]]]; rewrite Ew in *; cbn in *; lia.
+        + unfold it_inrange, it_min, it_max in *. rewrite Es in *.
+          destruct Hw as [Ew|[Ew|[Ew|Ew]]]; rewrite Ew in *; cbn in *; lia. }
+    tauto.
+  - intros Es. specialize (Hu Es). lia.
+  - exists w, n. split; [exact E|]. unfold c_convert. exact Hcong.
+Qed.
